@@ -541,9 +541,12 @@ func genMessageDefaultDecls(g *protogen.GeneratedFile, f *fileInfo, m *messageIn
 					name, g.QualifiedGoIdent(field.Enum.GoIdent), val.Desc.Number(), g.QualifiedGoIdent(val.GoIdent)))
 			}
 		case protoreflect.FloatKind, protoreflect.DoubleKind:
-			if f := defVal.Float(); math.IsNaN(f) || math.IsInf(f, 0) {
+			if f := defVal.Float(); math.IsNaN(f) || math.IsInf(f, 0) || (f == 0 && math.Signbit(f)) {
 				var fn, arg string
 				switch f := defVal.Float(); {
+				case f == 0:
+					// The Go constant expression -0 is positive zero.
+					fn, arg = g.QualifiedGoIdent(mathPackage.Ident("Copysign")), "0, -1"
 				case math.IsInf(f, -1):
 					fn, arg = g.QualifiedGoIdent(mathPackage.Ident("Inf")), "-1"
 				case math.IsInf(f, +1):
